@@ -76,7 +76,7 @@ func Random(r *rand.Rand, local bool) Scn {
 				case 1:
 					po.Preset = true
 				case 2:
-					po.DryRun = pick(r, []string{"reject", "error"})
+					po.DryRun = pick(r, verifphase.DryRunVerdicts)
 				case 3:
 					if !s.Cluster {
 						po.NS = "ns2"
@@ -91,6 +91,20 @@ func Random(r *rand.Rand, local bool) Scn {
 			sp.Phases = append(sp.Phases, ph)
 		}
 		s.Sets = append(s.Sets, sp)
+	}
+	// the scripted admission verdict is a property of the object (kind/name), not of the revision listing it
+	verdict := map[string]string{}
+	for i := range s.Sets {
+		for j := range s.Sets[i].Phases {
+			for k := range s.Sets[i].Phases[j].Objects {
+				o := &s.Sets[i].Phases[j].Objects[k]
+				if v, ok := verdict[o.Kind+"/"+o.Name]; ok {
+					o.DryRun = v
+				} else {
+					verdict[o.Kind+"/"+o.Name] = o.DryRun
+				}
+			}
+		}
 	}
 	// pre-existing objects
 	seen := map[string]bool{}
